@@ -64,17 +64,15 @@ def run(chk: common.Check) -> None:
     for c in conc:
         chk.cov.case(('conc', c['seed']))
         chk.cov.count('kinds', 'concurrent')
-        msgs = []
         sm = c['states']
-        for a, b in zip(sm, sm[1:]):
-            if (a, b) not in _life.EDGES:
-                msgs.append(f'state attribute went {a} → {b} (overlapping calls {c["calls"]})')
+        attr = [f'state attribute went {a} → {b} (overlapping calls {c["calls"]})' for a, b in zip(sm, sm[1:]) if (a, b) not in _life.EDGES]
         pb = c['published']
-        for a, b in zip(pb, pb[1:]):
-            if (a, b) not in _life.EDGES and a != b:
-                msgs.append(f'published state went {a} → {b} (overlapping calls)')
+        pubs = [f'published state went {a} → {b} (overlapping calls {c["calls"]})' for a, b in zip(pb, pb[1:])
+                if ((a, b) not in _life.EDGES and a != b) or (a == b and a != 'initialized')]
         if c['error']:
-            msgs.append(f'scenario with overlapping calls failed: {c["error"]}')
-        if msgs:
-            oracle_fail.append((c, msgs, 'overlapping_lifecycle_calls'))
+            attr.append(f'scenario with overlapping calls failed: {c["error"]}')
+        if attr:
+            oracle_fail.append((c, attr, None))          # never seen on the unchanged tree: not a known finding
+        if pubs:
+            oracle_fail.append((c, pubs, 'overlap_published_states'))
     _life.finish(chk, 'C01', oracle_fail, dis, 'call results, state attribute, state publications')
